@@ -2,11 +2,14 @@
 
 package centrifuge
 
+import "time"
+
 // Overlay-injected (never committed to /repo) for the /verif mapsub family (C22, C16 map paths).
 // The memory map broker expires keys and streams from background goroutines driven by one-second timers; there is
 // no public trigger.  The two functions below run, on the calling goroutine, exactly the body those sweeps run:
 // one iteration of the key-expiry sweep, and the per-channel step of the stream-expiry sweep (stream.Clear()).
-// Nothing here changes the behaviour of the code under test.
+// The periodic position check of a connection is driven by a 25 s timer and a minimal delay between checks; the third
+// function runs one tick now.  Nothing here changes the behaviour of the code under test.
 
 // VerifMapSubSweepKeys runs one iteration of mapHub.expireKeysIteration (the body of the expireKeys loop).
 func VerifMapSubSweepKeys(e *MemoryMapBroker) {
@@ -27,4 +30,13 @@ func VerifMapSubExpireStream(e *MemoryMapBroker, ch string) bool {
 	}
 	channel.stream.Clear()
 	return true
+}
+
+// VerifMapSubPositionTick runs one periodic tick of a connection (Client.updatePresence: presence refresh, position
+// check and what follows from an invalid position) on the calling goroutine, with the node's clock (nowTimeGetter,
+// read by Client.checkPosition to decide whether a check is due) set `advance` ahead of the real time so that the
+// check is due now instead of after ClientChannelPositionCheckDelay.
+func VerifMapSubPositionTick(c *Client, advance time.Duration) {
+	c.node.nowTimeGetter = func() time.Time { return time.Now().Add(advance) }
+	c.updatePresence()
 }
